@@ -2,6 +2,7 @@ package rules
 
 import (
 	"fmt"
+	"go/token"
 	"go/types"
 	"strings"
 
@@ -23,6 +24,7 @@ func init() {
 func c19(c *Ctx) {
 	p, R := c.Explorer(), c.R
 	R.Trust("go/types + go/ssa", "sync.Mutex semantics", "VerifySignatures / CalculateQuorum of the pinned node copy (checked by C06/C07 on that copy)", "the contiguous ranges fetched from chain start at current+1 (value-level, not decided)")
+	loopVarRule(c, p, "C19.loopvar", pkgXProc, pkgXGS, pkgXDedup)
 	R.Assumption("concurrent interleavings are addressed by lock discipline, not explored")
 	push := must(p.Method(pkgXProc, "vaaGossipConsumer", "Push"), "explorer processor.(*vaaGossipConsumer).Push")
 	verify := must(p.Func(pkgXProc, "verifyVAA"), "explorer processor.verifyVAA")
@@ -102,7 +104,7 @@ func c19(c *Ctx) {
 				continue
 			}
 			na++
-			held := lockState(s.Fn, lock, false)[s.Instr]
+			held := heldAt(p, s.Fn, s.Instr, lock, false, 0)
 			R.Check("C19.lockset", R.Key("C19.lockset", shortFn(s.Fn), "access:"+fld.name), c.rel(p.Pos(s.Instr.Pos())), "access to GuardianSets."+fld.name+" in "+shortFn(s.Fn)+" holds GuardianSets.lock", held,
 				"the field is read without the lock while updateGuardianSets writes it under the lock (the index is stored before the list is appended, so an unlocked reader can index past the list or pair a new index with the old list)")
 		}
@@ -129,6 +131,85 @@ func c19(c *Ctx) {
 		}
 		R.Floor("C19.index-aligned."+fld.name, nst, 1)
 	}
+	// the appended tail starts at the batch element whose Index is currentGuardianSetIndex+1
+	nap := 0
+	for _, s := range storesToField(p, lst) {
+		if s.Fn != upd {
+			continue
+		}
+		ap := asCall(s.Instr.(*ssa.Store).Val, "append")
+		if ap == nil || len(ap.Call.Args) != 2 {
+			continue
+		}
+		nap++
+		ok, why := false, "appended value = "+facts.Term(ap.Call.Args[1])
+		if sl, isSl := ap.Call.Args[1].(*ssa.Slice); isSl && sl.X == upd.Params[1] && sl.High == nil && sl.Low != nil {
+			starts := []ssa.Value{sl.Low}
+			var preds []*ssa.BasicBlock
+			if ph, isPhi := sl.Low.(*ssa.Phi); isPhi {
+				starts = ph.Edges
+				preds = ph.Block().Preds
+			}
+			ok = true
+			for k, v := range starts {
+				if kv, isK := constInt(v); isK {
+					if kv != 0 {
+						ok, why = false, fmt.Sprintf("tail starts at constant %d", kv)
+					}
+					continue
+				}
+				var fs []facts.Fact
+				if preds != nil {
+					fs = facts.Between(nil, preds[k], nil)
+				} else {
+					fs = facts.At(s.Instr, nil)
+				}
+				found := false
+				for _, f := range fs {
+					x, op, y, isCmp := cmpOf(f)
+					if !isCmp || op != token.EQL {
+						continue
+					}
+					for _, pr := range [][2]ssa.Value{{x, y}, {y, x}} {
+						// pr[0] = guardianSets[v].Index ; pr[1] = uint32(gs.currentGuardianSetIndex) + 1
+						ld, isLd := strip(pr[0]).(*ssa.UnOp)
+						if !isLd {
+							continue
+						}
+						fa, isFa := ld.X.(*ssa.FieldAddr)
+						if !isFa || fieldOfAddr(fa).Name() != "Index" {
+							continue
+						}
+						el, isEl := fa.X.(*ssa.UnOp)
+						if !isEl {
+							continue
+						}
+						ia, isIa := el.X.(*ssa.IndexAddr)
+						if !isIa || ia.X != upd.Params[1] || ia.Index != v {
+							continue
+						}
+						add, isAdd := pr[1].(*ssa.BinOp)
+						if !isAdd || add.Op != token.ADD {
+							continue
+						}
+						one, isOne := constInt(add.Y)
+						base := add.X
+						if cv, isCv := base.(*ssa.Convert); isCv {
+							base = cv.X
+						}
+						if isOne && one == 1 && loadedField(base) == cur {
+							found = true
+						}
+					}
+				}
+				if !found {
+					ok, why = false, "tail start "+facts.Term(v)+" is not chosen under the fact guardianSets[start].Index == currentGuardianSetIndex+1 (facts: "+facts.Join(fs)+")"
+				}
+			}
+		}
+		R.Check("C19.index-aligned", R.Key("C19.index-aligned", shortFn(upd), "append-start"), c.sitePos(p, s), "the tail appended to the list starts at the batch element whose Index is currentGuardianSetIndex+1 (so list position i keeps holding the set with index i when a batch overlaps what is already known)", ok, why)
+	}
+	R.Floor("C19.index-aligned.append", nap, 1)
 	// every returned set is list[index] for the index asked
 	nret := 0
 	for _, name := range []string{"GetGuardianSet", "lookup"} {
